@@ -250,6 +250,9 @@ func snapWorker(args []string) error {
 					fmu.Unlock()
 				}
 				err := s.Snapshot(0)
+				fmu.Lock()
+				failCreate = false // not consumed if there was nothing to snapshot
+				fmu.Unlock()
 				es := ""
 				if err != nil {
 					es = err.Error()
